@@ -10,6 +10,8 @@ use std::sync::atomic::{AtomicU64, Ordering};
 use std::sync::Arc;
 
 pub const NSITES: usize = site::LIMIT as usize;
+/// See `on_step`.
+pub const PREEMPT_STEPS: u64 = 4000;
 
 /// Payload used to unwind a caller from inside the library. `resume_unwind` is used, so
 /// no panic hook runs and nothing is printed.
@@ -111,7 +113,13 @@ fn on_step(site_id: u32) {
         ACTIVE.with(|a| a.set(false));
         std::panic::resume_unwind(Box::new(SimUnwind::Crash));
     }
-    // scheduler
+    // scheduler: only the first PREEMPT_STEPS steps of a call are preemptible. Beyond that
+    // (catastrophic backtracking, divergence) more interleavings add nothing and cost a
+    // context switch each; the decision depends on the call's own step count only, so it is
+    // deterministic.
+    if s > PREEMPT_STEPS {
+        return;
+    }
     let sim = SIM.with(|s| s.borrow().clone());
     if let Some(sim) = sim {
         let preemptible = (MASK.with(|m| m.get()) >> idx) & 1 == 1;
